@@ -89,6 +89,13 @@ func persistEquiv(c *ctx, sb *zap.SegmentBase, spec sx.V, ndocs uint64, mode uin
 	if d := partsDiffer(opened.Sx(), spec, allParts); len(d) > 0 {
 		return "opened segment differs from the specification in " + fmt.Sprint(d) + "\n" + describeDiff(opened.Sx(), spec, allParts)
 	}
+	// the id-based calls (DocID, DocNumbers on id lists, visits beyond Count) on both
+	if bad := storedAPIFromSpec(c, sb, spec); bad != "" {
+		return "in-memory segment: " + bad
+	}
+	if bad := storedAPIFromSpec(c, seg, spec); bad != "" {
+		return "opened segment: " + bad
+	}
 	// sections are visited in Go map order when a segment is opened: a segment with data in more
 	// than one section (thesauri) is opened repeatedly
 	if len(spec.L[pThes].L) > 0 {
@@ -130,6 +137,7 @@ func checkC04(c *ctx) {
 		o := zh.RandOpts(c.R, c.R.Intn(12), "d")
 		o.BigVals = c.R.Chance(15)
 		o.LongIDs = c.R.Chance(5)
+		o.DupIDs = c.R.Chance(4)
 		o.HugeIDs = true
 		b := zh.GenBatch(c.R, o)
 		if c.R.Chance(4) {
